@@ -1371,6 +1371,16 @@ func ownCheck(c *an.Check) {
 			}
 			return false
 		}}}})
+	// Send consumes an acknowledgement (empties the outgoing slot and reports success) only when the slot holds its own
+	// message: a queued Send that has not placed its message must not take the ack of the one in flight
+	c.Gate(an.GateSpec{Rule: "OWNCHECK", Construct: "signaling client Send consumes an acknowledgement", Fn: lit,
+		Sink: func(s *an.State, ins ssa.Instruction) bool {
+			v, _, ok := storeTo(ins, outF)
+			return ok && isNilConst(v)
+		},
+		Reqs: []an.Req{an.FactReq("the outgoing slot holds this call's message (out.Seqno == seqno)", func(s *an.State, x, y ssa.Value, r an.Rel) bool {
+			return r == an.EQ && (isOutSeqno(s, x) || isOutSeqno(s, y))
+		})}})
 	// side obligation for the "session closed" case: whoever sets open=nil leaves the outgoing slot empty
 	ex := p.Func(cliPkg, "clientPeerTracker", "execute")
 	closers := closuresWhere(ex, func(g *ssa.Function) bool { return storesField(g, openF, isNilConst) })
